@@ -158,11 +158,13 @@ theorem fixsignsRef_reparam {S : Services α} (hS : S.Lawful) (K other : Ktensor
     (h : fixsignsRef S K other = .ok K') : Reparam K K' := by
   unfold fixsignsRef fixsignsRefG at h
   split at h
-  · rename_i A B hA hB
-    have r1 := normalize_reparam hS K none false .two none hA
-    have hN := (normalize_none_eq S K none false .two hA).1
-    exact r1.trans (foldlM_fixsignsRefComp hS B A _ (by rw [r1.ndims]; exact hN) h)
   · cases h
+  · split at h
+    · rename_i A B hA hB
+      have r1 := normalize_reparam hS K none false .two none hA
+      have hN := (normalize_none_eq S K none false .two hA).1
+      exact r1.trans (foldlM_fixsignsRefComp hS B A _ (by rw [r1.ndims]; exact hN) h)
+    · cases h
 
 /-! ### `tolist` -/
 
